@@ -107,16 +107,20 @@ Proof.
   - rewrite andb_true_iff, value_eqb_ok, IH. split; [intros [-> ->]; reflexivity|intros [= -> ->]; auto].
 Qed.
 
-(** a cheap hash of a state vector (soundness of the checker never depends on it) *)
+(** a cheap hash of a state vector (soundness of the checker never depends on it);
+    only shifts, xor and masks on numbers below 2^28, which are fast under vm_compute *)
+Definition hmask : Z := 268435455.
+Definition hmix (h x : Z) : Z := Z.land (Z.lxor (Z.lxor (Z.shiftl h 5) (Z.shiftr h 3)) x) hmask.
+
 Fixpoint value_hash (v : value) : Z :=
   match v with
   | VL b => if b then 3 else 2
-  | VV _ w x => 5 + x * 7 + Z.of_N w
+  | VV _ w x => hmix (Z.of_N w) (Z.land x hmask)
   | VB b => if b then 13 else 11
-  | VI z => 17 + z * 3
-  | VE k => 19 + Z.of_N k * 5
-  | VA l => fold_left (fun h x => (h * 33 + value_hash x) mod 1073741789) l 23
+  | VI z => hmix 17 (Z.land z hmask)
+  | VE k => hmix 19 (Z.of_N k)
+  | VA l => fold_left (fun h x => hmix h (value_hash x)) l 23
   end.
 
 Definition values_hash (l : list value) : positive :=
-  Z.to_pos (1 + Z.abs (fold_left (fun h x => (h * 131 + value_hash x) mod 1073741789) l 7)).
+  Z.to_pos (1 + fold_left (fun h x => hmix h (value_hash x)) l 7).
